@@ -1253,7 +1253,14 @@ class ObjectIdentifier(base.SimpleAsn1Type):
         raise error.PyAsn1Error('Malformed Object ID %s at %s' % (value, self.__class__.__name__))
 
     def prettyOut(self, value):
-        return '.'.join([str(x) for x in value])
+        try:
+            return '.'.join([str(x) for x in value])
+
+        except ValueError:
+            # an arc longer than the interpreter converts to decimal
+            # digits (sys.set_int_max_str_digits): those in hexadecimal
+            return '.'.join([x.bit_length() > 4096 and hex(x) or str(x)
+                             for x in value])
 
 
 class Real(base.SimpleAsn1Type):
